@@ -12,6 +12,7 @@ def showVal : Val → String
   | .bool false => "False"
   | .int n => "int:" ++ toString n
   | .str s => "str:" ++ hexOf s
+  | .mod n => "mod:" ++ hexOf n
 
 /-- `pycore.run <fuel> <module>` → text: `END <ending>` / `OUT <code points>` per line / `GLOBAL <name> <value>` -/
 def runWith (optimized : Bool) (args : List Sexp) : Option String := do
@@ -21,7 +22,8 @@ def runWith (optimized : Bool) (args : List Sexp) : Option String := do
     let m ← AstSexp.module? m
     let o := if optimized then runO fuel m else run fuel m
     let lines := ["END " ++ o.ending] ++ o.out.map (fun l => "OUT " ++ hexOf l) ++
-      o.globals.map (fun (n, v) => "GLOBAL " ++ n ++ " " ++ showVal v)
+      o.globals.map (fun (n, v) => "GLOBAL " ++ n ++ " " ++ showVal v) ++
+      o.imports.map (fun l => "IMPORT " ++ hexOf l)
     pure (encStr ("\n".intercalate lines))
   | _ => none
 
